@@ -45,6 +45,10 @@ Definition mtoy_dstep (s : toy_state) (data : bytes) (ml : Z) : toy_state * byte
   else (s, data).
 
 Definition mtoy_held (s : toy_state) : Z := zlen (snd s).
+(* which toy states meet which contract (Prop; not extracted) *)
+Definition mtoy_honest (s : toy_state) : Prop := fst (fst s) = 1 \/ fst (fst s) = 3.
+Definition mtoy_tame (K : Z) (s : toy_state) : Prop :=
+  fst (fst s) <> 1 /\ fst (fst s) <> 3 /\ snd (fst s) <= K.
 
 Section Acct.
   Variable stage_st : Type.
@@ -133,6 +137,31 @@ Section Acct.
 
   Definition buf_inv (st : dstate stage_st) : Prop :=
     0 <= pos st <= zlen (buf st) /\ unused st = [].
+
+  (* ---- specification-level definitions (Prop; not extracted) -------- *)
+  (* the last decoder of the chain satisfies [honest] *)
+  Fixpoint last_ok (honest : stage_st -> Prop) (ss : list stage_st) : Prop :=
+    match ss with
+    | [] => False
+    | s :: t => match t with [] => honest s | _ :: _ => last_ok honest t end
+    end.
+
+  (* what one call does to the carry-over buffer *)
+  Definition buf_case (st st' : dstate stage_st) (ml : Z) (data tmp : bytes) : Prop :=
+    let cur := zlen (buf st) - pos st in
+    (* enough in _buf: nothing read, nothing decoded *)
+    (0 <= ml <= cur /\ buf st' = buf st /\ pos st' = pos st + ml /\ data = [] /\ tmp = [] /\
+     stages st' = stages st)
+    \/ (* everything handed out *)
+    ((ml < 0 \/ cur + zlen tmp <= ml) /\ buf st' = [] /\ pos st' = 0 /\
+     chain_run dstep (stages st) (unpacked st) (unpacksizes st) data ml
+       = Ok (stages st', unpacked st', tmp))
+    \/ (* surplus of tmp kept *)
+    (0 <= cur < ml /\ ml < cur + zlen tmp /\ pos st' = 0 /\
+     zlen (buf st') = cur + zlen tmp - ml /\
+     chain_run dstep (stages st) (unpacked st) (unpacksizes st) data ml
+       = Ok (stages st', unpacked st', tmp)).
+
 End Acct.
 
 Arguments sum_held {stage_st}.
@@ -147,6 +176,8 @@ Arguments acct_trace {stage_st}.
 Arguments worker_peak {stage_st}.
 Arguments clean {stage_st}.
 Arguments buf_inv {stage_st}.
+Arguments last_ok {stage_st}.
+Arguments buf_case {stage_st}.
 
 (* affine expansion iterated over a chain of n stages: x |-> r*x + c0 *)
 Fixpoint exp_iter (r c0 : Z) (n : nat) (x : Z) : Z :=
@@ -201,6 +232,7 @@ Definition ctoy_step (s : ctoy_state) (data : bytes) : ctoy_state * bytes :=
   let n := (length avail - Z.to_nat k)%nat in
   ((k, skipn n avail), firstn n avail).
 Definition ctoy_held (s : ctoy_state) : Z := zlen (snd s).
+Definition ctoy_good (K : Z) (s : ctoy_state) : Prop := 0 <= fst s <= K /\ zlen (snd s) <= fst s.
 
 (* ---- driver entry points ---------------------------------------------- *)
 Definition t_acct (x : bytes * list Z) : tree := TL [t_bytes (fst x); TL (map TI (snd x))].
@@ -270,29 +302,13 @@ Section AcctProofs.
 
   Local Notation dst := (dstate stage_st).
 
-  (* what one call does to the carry-over buffer *)
-  Definition buf_case (st st' : dst) (ml : Z) (data tmp : bytes) : Prop :=
-    let cur := zlen (buf st) - pos st in
-    (* enough in _buf: nothing read, nothing decoded *)
-    (0 <= ml <= cur /\ buf st' = buf st /\ pos st' = pos st + ml /\ data = [] /\ tmp = [] /\
-     stages st' = stages st)
-    \/ (* everything handed out *)
-    ((ml < 0 \/ cur + zlen tmp <= ml) /\ buf st' = [] /\ pos st' = 0 /\
-     chain_run dstep (stages st) (unpacked st) (unpacksizes st) data ml
-       = Ok (stages st', unpacked st', tmp))
-    \/ (* surplus of tmp kept *)
-    (0 <= cur < ml /\ ml < cur + zlen tmp /\ pos st' = 0 /\
-     zlen (buf st') = cur + zlen tmp - ml /\
-     chain_run dstep (stages st) (unpacked st) (unpacksizes st) data ml
-       = Ok (stages st', unpacked st', tmp)).
-
   (* Decomp.decompress_spec with the max_length of the chain call and the
      branch taken exposed *)
   Lemma decompress_spec_ml (st st' : dst) (ml : Z) (rd : nat) (out : bytes) :
     buf_inv st ->
     decompress dstep st ml rd = Ok (st', out) ->
     exists data tmp,
-      buf_case st st' ml data tmp /\
+      buf_case dstep st st' ml data tmp /\
       consumed st' = consumed st + zlen data /\
       zlen data <= Z.max 0 (Z.min (input_size st - consumed st) (block_size st)) /\
       block_size st' = block_size st /\ input_size st' = input_size st /\
@@ -388,18 +404,12 @@ Section AcctProofs.
     Hypothesis honours_max : forall s c ml,
         honest s -> 0 <= ml -> zlen (snd (dstep s c ml)) <= ml.
 
-    Fixpoint last_ok (ss : list stage_st) : Prop :=
-      match ss with
-      | [] => False
-      | s :: t => match t with [] => honest s | _ :: _ => last_ok t end
-      end.
-
     Lemma chain_run_out_le (ss : list stage_st) :
-      last_ok ss ->
+      last_ok honest ss ->
       forall up us data ml ss' up' out,
         0 <= ml ->
         chain_run dstep ss up us data ml = Ok (ss', up', out) ->
-        zlen out <= ml /\ last_ok ss'.
+        zlen out <= ml /\ last_ok honest ss'.
     Proof.
       induction ss as [|s ss IH]; intros Hok up us data ml ss' up' out Hml H; [destruct Hok|].
       simpl in H.
@@ -430,9 +440,9 @@ Section AcctProofs.
 
     (* calls with max_length < 0 keep the last stage honest too *)
     Lemma chain_run_last_ok (ss : list stage_st) :
-      last_ok ss ->
+      last_ok honest ss ->
       forall up us data ml ss' up' out,
-        chain_run dstep ss up us data ml = Ok (ss', up', out) -> last_ok ss'.
+        chain_run dstep ss up us data ml = Ok (ss', up', out) -> last_ok honest ss'.
     Proof.
       induction ss as [|s ss IH]; intros Hok up us data ml ss' up' out H; [destruct Hok|].
       simpl in H.
@@ -462,9 +472,9 @@ Section AcctProofs.
     (* with a non-empty carry-over buffer: it never grows, the chunk and tmp
        are bounded by max_length *)
     Theorem carry_never_grows (st st' : dst) (ml : Z) (rd : nat) (out : bytes) :
-      buf_inv st -> last_ok (stages st) -> 0 <= ml ->
+      buf_inv st -> last_ok honest (stages st) -> 0 <= ml ->
       decompress dstep st ml rd = Ok (st', out) ->
-      buf_inv st' /\ last_ok (stages st') /\
+      buf_inv st' /\ last_ok honest (stages st') /\
       zlen out <= ml /\ tmp_len st st' out <= ml /\
       zlen (buf st') <= zlen (buf st) /\
       read_len st st' <= Z.max 0 (block_size st) /\ block_size st' = block_size st.
@@ -493,9 +503,9 @@ Section AcctProofs.
        at most 2*max_length + block_size bytes are managed by py7zr, whatever
        the member size *)
     Theorem live_bytes_bounded (st st' : dst) (ml : Z) (rd : nat) (out : bytes) :
-      clean st -> last_ok (stages st) -> 0 <= ml ->
+      clean st -> last_ok honest (stages st) -> 0 <= ml ->
       decompress dstep st ml rd = Ok (st', out) ->
-      clean st' /\ last_ok (stages st') /\
+      clean st' /\ last_ok honest (stages st') /\
       zlen out <= ml /\ zlen (buf st') <= ml /\
       managed st st' out <= 2 * ml + Z.max 0 (block_size st) /\
       live held st st' out <= 2 * ml + Z.max 0 (block_size st) + sum_held held (stages st') /\
@@ -520,8 +530,8 @@ Section AcctProofs.
     (* calls with max_length < 0 ("everything of this block") also leave the
        buffer empty, so [clean] is an invariant of every call sequence *)
     Lemma clean_step (st st' : dst) (ml : Z) (rd : nat) (out : bytes) :
-      clean st -> last_ok (stages st) ->
-      decompress dstep st ml rd = Ok (st', out) -> clean st' /\ last_ok (stages st').
+      clean st -> last_ok honest (stages st) ->
+      decompress dstep st ml rd = Ok (st', out) -> clean st' /\ last_ok honest (stages st').
     Proof.
       intros Hc Hne H. destruct (Z.ltb_spec ml 0) as [Hneg|Hge].
       - destruct Hc as (Hb & Hp & Hu).
@@ -536,12 +546,12 @@ Section AcctProofs.
 
     Theorem clean_reachable (calls : list (Z * nat)) :
       forall (st st' : dst) (outs : bytes),
-        fresh st -> last_ok (stages st) ->
-        decompress_seq dstep st calls = Ok (st', outs) -> clean st' /\ last_ok (stages st').
+        fresh st -> last_ok honest (stages st) ->
+        decompress_seq dstep st calls = Ok (st', outs) -> clean st' /\ last_ok honest (stages st').
     Proof.
       assert (G : forall (st st' : dst) (outs : bytes),
-                 clean st -> last_ok (stages st) ->
-                 decompress_seq dstep st calls = Ok (st', outs) -> clean st' /\ last_ok (stages st')).
+                 clean st -> last_ok honest (stages st) ->
+                 decompress_seq dstep st calls = Ok (st', outs) -> clean st' /\ last_ok honest (stages st')).
       { induction calls as [|[ml rd] calls IH]; intros st st' outs Hc Hne H; simpl in H.
         - injection H as <- _. split; assumption.
         - destruct (decompress dstep st ml rd) as [[st1 o]|e] eqn:Hd; simpl in H; [|discriminate].
@@ -556,7 +566,7 @@ Section AcctProofs.
     (* the caller loop Worker.decompress: ml = min(remaining, max_block) *)
     Theorem worker_live_bounded (fuel : nat) :
       forall (st st' : dst) (size mb : Z) (sched : list nat) (out : bytes) (pk : Z),
-        clean st -> last_ok (stages st) -> 0 <= mb ->
+        clean st -> last_ok honest (stages st) -> 0 <= mb ->
         worker_peak dstep fuel st size mb sched = Ok (st', out, pk) ->
         pk <= 2 * mb + Z.max 0 (block_size st) /\ clean st' /\ block_size st' = block_size st.
     Proof.
@@ -832,9 +842,6 @@ Section AcctProofs.
 End AcctProofs.
 
 (* ---- the toy stages meet the contracts (non-vacuity) -------------------- *)
-Definition mtoy_honest (s : toy_state) : Prop := fst (fst s) = 1 \/ fst (fst s) = 3.
-Definition mtoy_tame (K : Z) (s : toy_state) : Prop :=
-  fst (fst s) <> 1 /\ fst (fst s) <> 3 /\ snd (fst s) <= K.
 
 Lemma mtoy_tag (s : toy_state) (c : bytes) (ml : Z) :
   fst (fst (fst (mtoy_dstep s c ml))) = fst (fst s) /\
@@ -899,9 +906,9 @@ Qed.
 
 (* instances of the main theorems for the toy stages *)
 Theorem toy_live_bytes_bounded (st st' : dstate toy_state) (ml : Z) (rd : nat) (out : bytes) :
-  clean st -> last_ok toy_state mtoy_honest (stages st) -> 0 <= ml ->
+  clean st -> last_ok mtoy_honest (stages st) -> 0 <= ml ->
   decompress mtoy_dstep st ml rd = Ok (st', out) ->
-  clean st' /\ last_ok toy_state mtoy_honest (stages st') /\
+  clean st' /\ last_ok mtoy_honest (stages st') /\
   zlen out <= ml /\ zlen (buf st') <= ml /\
   managed st st' out <= 2 * ml + Z.max 0 (block_size st) /\
   live mtoy_held st st' out <= 2 * ml + Z.max 0 (block_size st) + sum_held mtoy_held (stages st') /\
@@ -1038,7 +1045,7 @@ Proof. vm_compute. reflexivity. Qed.
    stage in front of an honest expander *)
 Example live_bytes_bounded_applies :
   let st := init_state [toy_st 0 0 []; toy_st 3 5 []] [100; 500] 9 4 [1; 2; 3; 4; 5; 6; 7; 8; 9] in
-  clean st /\ last_ok toy_state mtoy_honest (stages st) /\
+  clean st /\ last_ok mtoy_honest (stages st) /\
   exists st' out, decompress mtoy_dstep st 12 9 = Ok (st', out) /\ zlen out = 10 /\
                   managed st st' out = 24 /\ sum_held mtoy_held (stages st') = 2.
 Proof.
@@ -1130,7 +1137,6 @@ Section CompProofs.
 End CompProofs.
 
 (* the toy compressor meets the contract *)
-Definition ctoy_good (K : Z) (s : ctoy_state) : Prop := 0 <= fst s <= K /\ zlen (snd s) <= fst s.
 
 Lemma ctoy_good_step (K : Z) (s : ctoy_state) (c : bytes) :
   ctoy_good K s -> ctoy_good K (fst (ctoy_step s c)).
